@@ -98,6 +98,35 @@
   (def [p q A B] found)
   (fn [n] (string (string/slice m1 0 p) (string/repeat A (- n 1)) (string/slice m1 p q) (string/repeat B (- n 1)) (string/slice m1 q))))
 
+# values nested through abstract types whose marshal hook calls back into the marshaller (janet_marshal_janet):
+# the depth travels marshal_one -> marshal_one_abstract -> JanetMarshalContext.flags -> hook -> janet_marshal_janet
+# -> marshal_one.  kind "direct": the abstract holds the next abstract; "tuple" / "table": through a container.
+(defn abs-wrap [x]
+  (case kind "direct" x "tuple" [x] "table" @{:k x} "struct" {:k x} "array" @[x] (error (string "unknown kind " kind))))
+(defn abs-unwrap [x]
+  (case kind "direct" x "tuple" (in x 0) "table" (in x :k) "struct" (in x :k) "array" (in x 0)))
+(defn peg-const-nest [k]
+  (var p (peg/compile ~(constant :leaf)))
+  (for i 0 k (set p (peg/compile ~(constant ,(abs-wrap p)))))
+  p)
+(defn chan-item-nest [k]
+  (var c (ev/chan 1))
+  (ev/give c :leaf)
+  (for i 0 k (let [d (ev/chan 1)] (ev/give d (abs-wrap c)) (set c d)))
+  c)
+# marshal, then unmarshal what was written, then walk back down (by a loop): the copy must have the same depth
+(defn marshal-roundtrip [v n step]
+  (def img (marshal v))
+  (def back (unmarshal img))
+  (var x back) (var d 0)
+  (while (= (type x) (type v))
+    (set x (step x))
+    (if (or (indexed? x) (dictionary? x)) (set x (abs-unwrap x)))
+    (++ d))
+  (unless (and (= d (+ n 1)) (= x :leaf))
+    (error (string "HARNESS roundtrip of nested " (type v) " gave nesting " d " leaf " (describe x) ", expected " (+ n 1) " :leaf")))
+  nil)
+
 (defn peg-nest [k] (var p (peg/compile "a")) (for i 0 k (set p (peg/compile ~(/ "a" ,p)))) (marshal p))
 (defn def-nest [k]
   (var d @{:arity 0 :bytecode @[['ldn 0] ['ret 0]]})
@@ -209,6 +238,8 @@
                 (def r (compile x (curenv)))
                 (if (function? r) nil (error (r :error))))
     "unmarshal-defs" (fn [n] (unmarshal ((derive-image def-nest) n)) nil)
+    "marshal-abstract-peg" (fn [n] (marshal-roundtrip (peg-const-nest n) n (fn [p] (in (peg/match p "") 0))))
+    "marshal-abstract-chan" (fn [n] (marshal-roundtrip (chan-item-nest n) n ev/take))
     "unmarshal-abstract" (fn [n] (unmarshal ((derive-image peg-nest) n)) nil)
     "unmarshal-env" (fn [n] (unmarshal ((derive-image env-nest 1) n) load-image-dict) nil)
     "unmarshal-constants" (fn [n] (unmarshal ((derive-image const-nest 1) n) load-image-dict) nil)
@@ -469,6 +500,7 @@
   (def s0 (if (bytes? e) (string e) (string/format "%.60v" e)))
   (def s (string ;(peg/match ~(any (+ (/ (* "0x" :h+) "0x?") (<- 1))) s0)))
   (cond
+    (string/has-prefix? "HARNESS" s) (string/replace-all " " "_" s)
     (string/find "stack overflow" s) "stack-overflow"
     (string/find "recursed too deeply" s) "recursed-too-deeply"
     (string/find "recursion" s) "recursion-limit"
